@@ -47,7 +47,7 @@ KIND = {
     "R14.10": "W",
     "R14.11": "W", "R14.12": "W",
     "R06.9": "T",
-    "R07.11": "W",
+    "R07.11": "W", "R07.12": "S",
     "R18.12": "S",
     "R17.7": "W",
     "R13.4": "W",
